@@ -524,8 +524,16 @@ func runCase(cd caseDef, dir string, seed int64, tier string) (out caseOut) {
 	}
 	rnd.Shuffle(len(jobs), func(i, j int) { jobs[i], jobs[j] = jobs[j], jobs[i] })
 	rnd.Shuffle(len(last), func(i, j int) { last[i], last[j] = last[j], last[i] })
+	nFirst := len(jobs)
 	jobs = append(jobs, last...)
-	for _, jb := range jobs {
+	// bursts of simultaneous forwarded requests through one follower are placed at
+	// seeded points between the requests of the matrix (own stream: the matrix order
+	// does not depend on them) and once more after its last leadership-moving part
+	brnd := vc.Rand(uint64(cd.No) + 9000)
+	for ji, jb := range jobs {
+		if ji > 0 && ji <= nFirst && (ji == nFirst || brnd.IntN(5) == 0) {
+			idx = e.burst(idx, brnd)
+		}
 		ld := cl.WaitLeader(90 * time.Second)
 		if ld == nil {
 			out.FinalNote = "cluster lost its leader during the matrix"
